@@ -698,6 +698,8 @@ func run(cmd string, args []string) int {
 		return cmdNegotiate(args)
 	case "fragcheck":
 		return cmdFragCheck(args)
+	case "sexpcheck":
+		return cmdSexpCheck(args)
 	case "codeccheck":
 		return cmdCodecCheck(args)
 	case "parsefuzz":
